@@ -167,6 +167,8 @@ def ref_dechunk(data):
         if i - pos > 16:
             return "invalid:chunk-size-long", b"".join(out), pos
         size = int(data[pos:i], 16)
+        if size >= 1 << 63:
+            return "invalid:chunk-size-overflow", b"".join(out), pos
         # extensions
         while True:
             j = i
